@@ -313,7 +313,7 @@ pub fn trial(prop: &str, i: u64, rng: &mut Rng, out: &mut Outcome, dir: &std::pa
 
 pub fn run(ctx: &Ctx) -> i32 {
     let dir = ctx.scratch_dir("c04");
-    let n = ctx.budget(600, 30_000) as u64;
+    let n = ctx.budget(4000, 60_000) as u64;
     let out = crate::par::run(ctx, n, std::time::Duration::from_secs(ctx.tier.pick(60, 900)), |i, rng, out| trial(&ctx.prop, i, rng, out, &dir));
     let _ = std::fs::remove_dir_all(&dir);
     let floors = vec![
